@@ -838,8 +838,9 @@ impl Engine {
         let mut sqes = Vec::with_capacity(entries.len());
         for e in entries.iter_mut() {
             let name = e.op.ctor();
+            let ud = e.ud;
             let sqe = vh::runner::no_panic(name, || self.build_sqe(e))?;
-            sqes.push(Sqe::Rusl(sqe));
+            sqes.push(Sqe::Rusl(sqe, ud));
         }
         let cq = match self.s.run(sqes) {
             Ok(cq) => cq,
